@@ -11,7 +11,12 @@ type lazySubContext struct {
 }
 
 func (s *lazySubContext) GetMatch(idx int) string {
-	if idx < 0 || idx >= len(s.args) {
+	if idx < 0 {
+		// Not an argument. Hand it to the caller's context, so a body that touches the context to
+		// stay dynamic (eg. {time live}) is not seen as constant and frozen by the optimizer
+		return s.sub.GetMatch(idx)
+	}
+	if idx >= len(s.args) {
 		return ""
 	}
 	return s.args[idx](s.sub)
